@@ -267,7 +267,7 @@ RECURSIVE NumericLooking(_)   \* only characters an exponent-form numeral is mad
 NumericLooking(s) == s = "" \/ (CharAt(s, 1) \in {"0","1","2","3","4","5","6","7","8","9",".","e","+","-"}
                                 /\ NumericLooking(SubSeq(s, 2, Len(s))))
 
-ParseNum(s) ==      \* a number value | None | Unk
+ParseNum0(s) ==     \* a number value | None | Unk ; no exponent
   LET neg  == s # "" /\ CharAt(s, 1) = "-"
       sgn  == s # "" /\ CharAt(s, 1) \in {"-", "+"}
       body == IF sgn THEN SubSeq(s, 2, Len(s)) ELSE s
@@ -291,6 +291,25 @@ ParseNum(s) ==      \* a number value | None | Unk
            ELSE LET n == iv * Den + (fv * Den) \div Pow10(k)
                 IN IF n = 0 THEN Zero(IF neg THEN -1 ELSE 1)
                    ELSE MkFin(IF neg THEN -n ELSE n)
+
+(* with an exponent: mantissa e [sign] digits; exact results only, everything else is left undetermined *)
+ParseNum(s) ==
+  LET low == LowerStr(s) ePos == FindChar(low, "e", 1) IN
+  IF ePos = 0 \/ low \in {"inf", "infinity", "+inf", "-inf", "+infinity", "-infinity"} \/ ~NumericLooking(IF s # "" /\ CharAt(s, 1) \in {"+", "-"} THEN SubSeq(low, 2, Len(low)) ELSE low)
+  THEN ParseNum0(s)
+  ELSE LET mant == SubSeq(s, 1, ePos - 1)
+           ex == SubSeq(s, ePos + 1, Len(s))
+           esgn == ex # "" /\ CharAt(ex, 1) \in {"+", "-"}
+           edig == IF esgn THEN SubSeq(ex, 2, Len(ex)) ELSE ex
+           m == ParseNum0(mant)
+       IN IF edig = "" \/ ~AllDigits(edig) \/ m.t = "none" \/ mant = "" THEN (IF m.t = "none" \/ edig = "" \/ ~AllDigits(edig) THEN None ELSE Unk)
+          ELSE IF m.t # "num" THEN m
+          ELSE LET k == DigitsVal(edig, 0) neg == esgn /\ CharAt(ex, 1) = "-" IN
+               IF m.c # "fin" THEN (IF m.c = "nzero" THEN m ELSE Unk)
+               ELSE IF m.n = 0 THEN m
+               ELSE IF k < 0 \/ k > 6 THEN Unk
+               ELSE IF ~neg THEN (IF Abs(m.n) > MaxN \div Pow10(k) THEN Inexact ELSE MkFin(m.n * Pow10(k)))
+               ELSE (IF m.n % Pow10(k) = 0 THEN MkFin(m.n \div Pow10(k)) ELSE Inexact)
 
 (* i64::from_str_radix : optional sign, at least one digit of the radix.   *)
 RECURSIVE RadixVal(_, _, _)   \* -1 invalid digit, -2 overflow of the model's range
